@@ -19,23 +19,17 @@ static P mk(char k, long lo, long hi, P a, P b) { auto n = std::make_shared<Node
 static std::string shape(const P &n) { if (n->kind == 'I') return "I"; if (n->kind == 'B') return "B(" + shape(n->a) + ")"; return "J(" + shape(n->a) + "," + shape(n->b) + ")"; }
 static std::string full(const P &n) { if (n->kind == 'I') return "I"; if (n->kind == 'B') return "B(" + std::to_string(n->lo) + "," + std::to_string(n->hi) + "," + full(n->a) + ")"; return "J(" + full(n->a) + "," + full(n->b) + ")"; }
 
-static bool gap = false;
-// accumulation run: returns true and the covered interval if n is I (empty at position pos) or B(lo,hi,run) extending a run to the right
-static bool run_cov(const P &n, long &lo, long &hi, bool &empty) {
-    if (n->kind == 'I') { empty = true; return true; }
-    if (n->kind != 'B') return false;
-    long l2, h2; bool e2 = false;
-    if (n->a->kind == 'J') { gap = true; return false; }
-    if (!run_cov(n->a, l2, h2, e2)) return false;
-    if (n->lo >= n->hi) return false;
-    if (e2) { lo = n->lo; hi = n->hi; empty = false; return true; }
-    if (h2 != n->lo) return false;
-    lo = l2; hi = n->hi; empty = false; return true;
-}
+static bool gap = false;   // informational: a body that kept accumulating after a join was observed (part of the grammar since it was first seen)
+// covered interval of an expression of the grammar, false if it is not a member
 static bool e_cov(const P &n, long &lo, long &hi) {
-    bool empty = false;
-    if (n->kind == 'B') return run_cov(n, lo, hi, empty) && !empty;
-    if (n->kind == 'J') { long l1, h1, l2, h2; if (!e_cov(n->a, l1, h1) || !e_cov(n->b, l2, h2)) return false; if (h1 != l2) return false; lo = l1; hi = h2; return true; }
+    if (n->kind == 'B') {
+        if (n->lo >= n->hi) return false;
+        if (n->a->kind == 'I') { lo = n->lo; hi = n->hi; return true; }           // fresh instance
+        if (n->a->kind == 'J') gap = true;
+        long l0, h0; if (!e_cov(n->a, l0, h0) || h0 != n->lo) return false;        // continues a value for the adjacent prefix
+        lo = l0; hi = n->hi; return true;
+    }
+    if (n->kind == 'J') { long l1, h1, l2, h2; if (!e_cov(n->a, l1, h1) || !e_cov(n->b, l2, h2) || h1 != l2) return false; lo = l1; hi = h2; return true; }
     return false;
 }
 
